@@ -13,41 +13,6 @@ VARIABLE i
 Init == i \in 1..Len(Recs)
 Next == UNCHANGED i
 
-FileIds(r) == {r.files[k].id : k \in 1..Len(r.files)}
-FileOf(r, id) == r.files[CHOOSE k \in 1..Len(r.files) : r.files[k].id = id]
-
-\* the announcement: exactly the recognised files present, with their true sizes, nothing else in the entries
-ManifestOk(r) ==
-  LET d == DecPacket("feig_WriteFile", r.announce) IN
-  /\ d.ok /\ d.rest = <<>> /\ d.val.tlv # <<>>
-  /\ LET fs == d.val.tlv[1].files IN
-     /\ Len(fs) = Cardinality(FileIds(r))
-     /\ \A k \in 1..Len(fs) :
-          /\ fs[k].file_id # <<>> /\ fs[k].file_size # <<>> /\ fs[k].file_offset = <<>> /\ fs[k].payload = <<>>
-          /\ DToInt(fs[k].file_id[1]) \in FileIds(r)
-          /\ fs[k].file_size[1] = DFromInt(FileOf(r, DToInt(fs[k].file_id[1])).size)
-     /\ \A a, b \in 1..Len(fs) : a # b => fs[a].file_id # fs[b].file_id
-  \* every announced id belongs to the recognised path it was found under
-  /\ \A k \in 1..Len(r.files) : IdOfPath(r.files[k].path) = r.files[k].id
-
-\* the j-th data block written answers the j-th answerable request: same id, same offset, exactly the file's bytes
-BlockOk(r, req, blk) ==
-  LET q == ReqFile(req)
-      id == DToInt(q.file_id[1])
-      off == q.file_offset[1]
-      f == FileOf(r, id) IN
-  IF "bytes" \in DOMAIN blk /\ blk.bytes # <<>>
-  THEN LET d == DecPacket("feig_WriteData", blk.bytes) IN
-       /\ d.ok /\ d.rest = <<>> /\ d.val.tlv # <<>> /\ d.val.tlv[1].file # <<>>
-       /\ LET a == d.val.tlv[1].file[1] IN
-          /\ a.file_id = q.file_id /\ a.file_offset = q.file_offset /\ a.file_size = <<>>
-          /\ LET want == IF Len(off) > 9 THEN <<>> ELSE Slice(f.content, DToInt(off), r.block) IN
-             a.payload = (IF want = <<>> THEN <<>> ELSE <<want>>)
-  ELSE \* large block: header as decoded by the harness, payload compared by the harness with its own copy
-       /\ blk.id = id /\ blk.off = off
-       /\ blk.len = (IF Len(off) > 9 THEN 0 ELSE SliceLen(f.size, DToInt(off), r.block))
-       /\ blk.same = TRUE
-
 Flags(r) ==
   IF r.note # "" THEN {"abnormal:" \o r.note}
   ELSE LET announced == FileIds(r)
